@@ -366,6 +366,23 @@ pub fn record_reenc(out: &mut Out, tier: &str, seed: u64) {
     accept_inputs::<V3>(&mut rng, &mut b, n, &mut |o, bytes| accepted_events::<V3>(out, o, bytes, true, false));
     let mut rng2 = Rng::new(seed ^ 0xC115);
     accept_inputs::<V5>(&mut rng2, &mut b, 2 * n, &mut |o, bytes| accepted_events::<V5>(out, o, bytes, true, false));
+    // lenient framing at the width boundary of the length field, deterministically: a self-delimiting body that overruns
+    // (and one that falls short of) the declared remaining length, where the true length needs another width
+    for (declared, idlen) in [(12usize, 200usize), (12, 100), (127, 200), (300, 20), (20000, 20), (12, 17000)] {
+        let mut f = vec![0x10u8];
+        f.extend(crate::topic::varint(declared));
+        f.extend_from_slice(&[0, 4, b'M', b'Q', b'T', b'T', 4, 2, 0, 10]);
+        f.extend(crate::topic::field(&vec![b'c'; idlen]));
+        accepted_events::<V3>(out, "lenient_framing", &f, true, false);
+        let mut g = vec![0x20u8];
+        g.extend(crate::topic::varint(declared));
+        g.extend_from_slice(&[1, 0x9C]);
+        let mut props = vec![0x1C];
+        props.extend(crate::topic::field(&vec![b's'; idlen]));
+        g.extend(crate::topic::varint(props.len()));
+        g.extend(props);
+        accepted_events::<V5>(out, "lenient_framing", &g, true, false);
+    }
 }
 
 pub fn record_decoded(out: &mut Out, tier: &str, seed: u64) {
